@@ -24,7 +24,7 @@ META = dict(c03.META)
 META.update({
     'property': 'C04',
     'lean_props': ['DoitModel.Props.C04'],
-    'budget': {'quick': 25, 'thorough': 420},
+    'budget': {'quick': 30, 'thorough': 420},
     'anchors': c03.META['anchors'] + ['doit/runner.py::MRunner', 'doit/runner.py::MThreadRunner',
                                        'doit/tools.py::timeout', 'doit/tools.py::check_timestamp_unchanged'],
     'design_ref': '§5 C04, §4 M2',
